@@ -34,9 +34,11 @@ MODELS = [(r'<std::collections::HashMap<types::type_name::TypeName, context::Typ
 
 
 class Graph:
-    def __init__(self, it, st, N, F, alpha):
+    def __init__(self, it, st, N, F, alpha, depth=1, inner_tys=None):
         self.it, self.N, self.F = it, N, F
         self.kinds, self.safs, self.tys = alpha
+        self.depth = depth                      # nesting depth of container member types (1: containers of references)
+        self.inner_tys = inner_tys or (TY_REF,)   # what a container may hold below the root, above the last level
         self.v = {}
         self.cons = []
         self.ctx = self.build(st)
@@ -58,12 +60,26 @@ class Graph:
         inner = Enum(ls, z3.ZeroExt(56, saf) - 1, tuple((i, Agg(n, ())) for i, (n, _) in enumerate(ls.variants)))
         return it.opt(saf != 0, inner)
 
-    def sym_type(self, st, ty, tgt):
-        """Type value whose shape is selected by ty, referring to named type tgt"""
+    def node_vars(self, base, path):
+        """selector and target variables of the type-expression node `path` below member `base`"""
+        return self.V(f'ty{base}{path}'), self.V(f'tgt{base}{path}', 64)
+
+    def sym_type(self, st, ty, tgt, base=None, path='', level=1):
+        """Type value whose shape is selected by ty, referring to named type tgt; below the root (nesting depth > 1) the item
+        types of containers are themselves symbolic type expressions"""
         it = self.it
         td = it.enum_decl(T + 'type_::Type')
         pd = it.enum_decl(T + 'primitive_type::PrimitiveType')
-        ref = lambda: it.mk_enum(td, 'Reference', self.type_name(tgt))
+
+        def child(c):
+            if base is None or level >= self.depth:
+                return it.mk_enum(td, 'Reference', self.type_name(tgt))
+            cty, ctgt = self.node_vars(base, path + c)
+            allowed = self.inner_tys if level + 1 < self.depth else tuple(t for t in self.inner_tys if t in (TY_STRING, TY_BEARER, TY_REF, TY_EXT))
+            self.oneof(cty, allowed)
+            self.cons.append(z3.ULT(ctgt, self.N))
+            return self.sym_type(st, cty, ctgt, base, path + c, level + 1)
+        ref = lambda c='a': child(c)
         prim = Enum(pd, z3.If(ty == TY_BEARER, bv(pd.index['Bearertoken']), bv(pd.index['String'])),
                     ((pd.index['String'], Agg('String', ())), (pd.index['Bearertoken'], Agg('Bearertoken', ()))))
         string = it.mk_enum(td, 'Primitive', it.mk_enum(pd, 'String'))
@@ -79,7 +95,7 @@ class Graph:
             pay['Set'] = (Agg(T + 'set_type::SetType', (box(st, ref()),)),)
             disc = z3.If(ty == TY_SET, bv(td.index['Set']), disc)
         if TY_MAP in self.tys:
-            pay['Map'] = (Agg(T + 'map_type::MapType', (box(st, ref()), box(st, ref()))),)
+            pay['Map'] = (Agg(T + 'map_type::MapType', (box(st, ref('k')), box(st, ref('v')))),)
             disc = z3.If(ty == TY_MAP, bv(td.index['Map']), disc)
         if TY_EXT in self.tys:
             pay['External'] = (Agg(T + 'external_reference::ExternalReference', (box(st, self.type_name(bv(0))), box(st, string))),)
@@ -101,7 +117,7 @@ class Graph:
                 self.oneof(ty, self.tys)
                 self.cons.append(z3.ULT(tgt, N))
                 fields.append(Agg(T + 'field_definition::FieldDefinition',
-                                  (bstr(f'f{k}'), box(st, self.sym_type(st, ty, tgt)), it.none, it.none, self.log_safety_opt(saf))))
+                                  (bstr(f'f{k}'), box(st, self.sym_type(st, ty, tgt, f'{i}_{k}')), it.none, it.none, self.log_safety_opt(saf))))
             tn = lambda: box(st, self.type_name(bv(i)))
             obj = Agg(T + 'object_definition::ObjectDefinition', (tn(), Seq(tuple(fields)), it.none))
             uni = Agg(T + 'union_definition::UnionDefinition', (tn(), Seq(tuple(fields)), it.none))
@@ -139,13 +155,31 @@ class Graph:
                 mem = []
                 for k in range(F):
                     saf, ty, tgt = self.V(f'saf{i}_{k}'), self.V(f'ty{i}_{k}'), self.V(f'tgt{i}_{k}', 64)
-                    via_ref = z3.Or(*[z3.And(tgt == j, safe[j]) for j in range(N)])
-                    tsafe = z3.And(z3.Or(ty == TY_REF, ty == TY_OPT, ty == TY_LIST, ty == TY_SET, ty == TY_MAP), via_ref)
+                    tsafe = self.expr_safe(safe, f'{i}_{k}', '', 1, ty, tgt)
                     mem.append(z3.Or(saf == 1, z3.And(saf == 0, tsafe)))
                 kind = self.V(f'kind{i}')
                 new.append(z3.If(kind == 0, z3.And(*mem), z3.If(kind == 2, mem[0], kind == 3)))
             safe = new
         return safe
+
+    def expr_safe(self, safe, base, path, level, ty, tgt):
+        """the statement's rule for a type expression: references are as safe as their target, optionals and collections as safe as
+        their contents (maps: key and value), undeclared primitives, bearer tokens and external types are not safe"""
+        via_ref = z3.Or(*[z3.And(tgt == j, safe[j]) for j in range(self.N)])
+        if level >= self.depth:
+            return z3.And(z3.Or(ty == TY_REF, ty == TY_OPT, ty == TY_LIST, ty == TY_SET, ty == TY_MAP), via_ref)
+
+        def sub(c):
+            cty, ctgt = self.node_vars(base, path + c)
+            return self.expr_safe(safe, base, path + c, level + 1, cty, ctgt)
+        return z3.Or(z3.And(ty == TY_REF, via_ref), z3.And(z3.Or(ty == TY_OPT, ty == TY_LIST, ty == TY_SET), sub('a')), z3.And(ty == TY_MAP, sub('k'), sub('v')))
+
+    def concrete_expr(self, m, base, path, level, ty, tgt):
+        t, g = m.eval(ty, True).as_long(), m.eval(tgt, True).as_long()
+        if level >= self.depth or t not in (TY_OPT, TY_LIST, TY_SET, TY_MAP):
+            return (t, g)
+        kids = ['k', 'v'] if t == TY_MAP else ['a']
+        return (t, g, tuple(self.concrete_expr(m, base, path + c, level + 1, *self.node_vars(base, path + c)) for c in kids))
 
     def concrete(self, m):
         """the graph of a solver model as plain python"""
@@ -154,8 +188,8 @@ class Graph:
             kind = m.eval(self.V(f'kind{i}'), True).as_long()
             fs = []
             for k in range(self.F):
-                fs.append((m.eval(self.V(f'saf{i}_{k}'), True).as_long(), m.eval(self.V(f'ty{i}_{k}'), True).as_long(),
-                           m.eval(self.V(f'tgt{i}_{k}', 64), True).as_long()))
+                e = self.concrete_expr(m, f'{i}_{k}', '', 1, self.V(f'ty{i}_{k}'), self.V(f'tgt{i}_{k}', 64))
+                fs.append((m.eval(self.V(f'saf{i}_{k}'), True).as_long(), e[0], e[1]) + ((e[2],) if len(e) > 2 else ()))
             g.append((kind, fs))
         return g
 
@@ -167,13 +201,33 @@ def py_oracle(g):
     for _ in range(N + 1):
         new = []
         for kind, fs in g:
-            mem = [saf == 1 or (saf == 0 and ty in (TY_REF, TY_OPT, TY_LIST, TY_SET, TY_MAP) and safe[tgt]) for saf, ty, tgt in fs]
+            mem = [f[0] == 1 or (f[0] == 0 and py_expr_safe(safe, f[1:])) for f in fs]
             new.append(all(mem) if kind == 0 else mem[0] if kind == 2 else kind == 3)
         safe = new
     return safe
 
 
-def ir_type(ty, tgt):
+def py_expr_safe(safe, e):
+    ty, tgt = e[0], e[1]
+    if len(e) > 2 and ty in (TY_OPT, TY_LIST, TY_SET, TY_MAP):
+        return all(py_expr_safe(safe, c) for c in e[2])
+    return ty in (TY_REF, TY_OPT, TY_LIST, TY_SET, TY_MAP) and safe[tgt]
+
+
+def ir_type(ty, tgt, kids=None):
+    if kids is not None and ty in (TY_OPT, TY_LIST, TY_SET, TY_MAP):
+        sub = [ir_type(*c) for c in kids]
+        if ty == TY_OPT:
+            return {'type': 'optional', 'optional': {'itemType': sub[0]}}
+        if ty == TY_LIST:
+            return {'type': 'list', 'list': {'itemType': sub[0]}}
+        if ty == TY_SET:
+            return {'type': 'set', 'set': {'itemType': sub[0]}}
+        return {'type': 'map', 'map': {'keyType': sub[0], 'valueType': sub[1]}}
+    return ir_type_flat(ty, tgt)
+
+
+def ir_type_flat(ty, tgt):
     ref = {'type': 'reference', 'reference': {'name': f'T{tgt}', 'package': 'p'}}
     if ty == TY_STRING:
         return {'type': 'primitive', 'primitive': 'STRING'}
@@ -198,7 +252,7 @@ def ir_json(g, calls):
     for i, (kind, fs) in enumerate(g):
         tn = {'name': f'T{i}', 'package': 'p'}
         def fld(k, f):
-            d = {'fieldName': f'f{k}', 'type': ir_type(f[1], f[2])}
+            d = {'fieldName': f'f{k}', 'type': ir_type(*f[1:])}
             if f[0]:
                 d['safety'] = SAF_NAMES[f[0]]
             return d
@@ -207,7 +261,7 @@ def ir_json(g, calls):
         elif kind == 1:
             types.append({'type': 'union', 'union': {'typeName': tn, 'union': [fld(k, f) for k, f in enumerate(fs)]}})
         elif kind == 2:
-            d = {'typeName': tn, 'alias': ir_type(fs[0][1], fs[0][2])}
+            d = {'typeName': tn, 'alias': ir_type(*fs[0][1:])}
             if fs[0][0]:
                 d['safety'] = SAF_NAMES[fs[0][0]]
             types.append({'type': 'alias', 'alias': d})
@@ -270,16 +324,23 @@ def classify(g, calls):
     N = len(g)
     reach = [[False] * N for _ in range(N)]
     for i, (kind, fs) in enumerate(g):
-        for k, (saf, ty, tgt) in enumerate(fs):
+        for k, f in enumerate(fs):
+            saf = f[0]
             if kind in (0, 1) or (kind == 2 and k == 0):
-                if ty in (TY_REF, TY_OPT, TY_LIST, TY_SET, TY_MAP) and saf == 0:
-                    reach[i][tgt] = True
+                def refs(e):
+                    if len(e) > 2 and e[0] in (TY_OPT, TY_LIST, TY_SET, TY_MAP):
+                        return [r for c in e[2] for r in refs(c)]
+                    return [e[1]] if e[0] in (TY_REF, TY_OPT, TY_LIST, TY_SET, TY_MAP) else []
+                if saf == 0:
+                    for tgt in refs(f[1:]):
+                        reach[i][tgt] = True
     for k in range(N):
         for i in range(N):
             for j in range(N):
                 reach[i][j] = reach[i][j] or (reach[i][k] and reach[k][j])
     cyc = any(reach[i][i] for i in range(N))
-    return 'recursive-type-memoisation' if cyc else 'acyclic'
+    nested = any(len(f) > 3 for _, fs in g for f in fs)
+    return 'recursive-type-memoisation' if cyc else ('nested-expression' if nested else 'acyclic')
 
 
 def run(rep, tier):
@@ -288,19 +349,24 @@ def run(rep, tier):
     FULL = ((0, 1, 2, 3), (0, 1, 2, 3), (TY_STRING, TY_BEARER, TY_REF, TY_OPT, TY_LIST, TY_MAP, TY_EXT, TY_SET))
     REDUCED = ((0, 1), (0, 1, 2), (TY_STRING, TY_REF))
     MID = ((0, 1, 2, 3), (0, 1, 3), (TY_STRING, TY_BEARER, TY_REF, TY_OPT))
+    # nested type expressions (map<K, map<K2, V>>, list<optional<map<..>>>, ..): one object/enum pair, one member, expression depth 3
+    NESTED = ((0, 3), (0, 1), (TY_STRING, TY_REF, TY_OPT, TY_LIST, TY_MAP))
+    NEST_INNER = (TY_STRING, TY_REF, TY_OPT, TY_MAP)
     if tier == 'quick':
-        plans = [('N2-full', 2, 2, FULL, 1), ('N3-reduced', 3, 2, REDUCED, 1)]
+        plans = [('N2-full', 2, 2, FULL, 1), ('N3-reduced', 3, 2, REDUCED, 1), ('N2-nested3', 2, 1, NESTED, 0, 3, NEST_INNER)]
     else:
-        plans = [('N2-full', 2, 2, FULL, 2), ('N3-mid', 3, 2, MID, 1), ('N3-reduced-2prior', 3, 2, REDUCED, 2), ('N4-reduced', 4, 2, REDUCED, 1)]
+        plans = [('N2-full', 2, 2, FULL, 2), ('N3-mid', 3, 2, MID, 1), ('N3-reduced-2prior', 3, 2, REDUCED, 2), ('N4-reduced', 4, 2, REDUCED, 1),
+                 ('N2-nested3', 2, 1, NESTED, 1, 3, NEST_INNER + (TY_LIST, TY_BEARER))]
     rep.bounds['graphs'] = {p[0]: dict(types=p[1], members=p[2], kinds=[KIND_NAMES[k] for k in p[3][0]], safety=[SAF_NAMES[s] for s in p[3][1]],
-                                       member_types=list(p[3][2]), prior_calls=p[4]) for p in plans}
+                                       member_types=list(p[3][2]), prior_calls=p[4], expression_depth=(p[5] if len(p) > 5 else 1)) for p in plans}
     gen_binary('dev')          # built once before the configurations fan out over processes
     # one job per plan and per type the call under test refers to (the cases partition the plan's query)
     jobs = [(p, last) for p in plans for last in range(p[1])]
 
     def worker(sub, job):
-        (name, N, F, alpha, prior), last = job
-        run_plan(sub, prog, entry, name, N, F, alpha, prior, last)
+        plan, last = job
+        name, N, F, alpha, prior = plan[:5]
+        run_plan(sub, prog, entry, name, N, F, alpha, prior, last, *(plan[5:] if len(plan) > 5 else ()))
     run_parallel(rep, jobs, worker)
     rep.assumptions += ['HashMap<TypeName, TypeContext> indexing = lookup by the referenced type (every reference resolves: validated IR)',
                         'RefCell borrow flags are not modelled (a double borrow would panic; none of the executed paths nests borrows of one cell)',
@@ -308,12 +374,12 @@ def run(rep, tier):
     rep.outside += ['type graphs with more types / members than the listed plans', 'the token emission (quote!) is covered by the native replay only']
 
 
-def run_plan(rep, prog, entry, name, N, F, alpha, prior, last_target=None):
+def run_plan(rep, prog, entry, name, N, F, alpha, prior, last_target=None, depth=1, inner=None):
     it = Interp(prog, models_std.MODELS + MODELS, {}, unwind=F + 6,
                 merge=(r'::context::<impl at [^>]*>::(type_log_safety|combine_safety|is_safe_arg|is_legacy_safe|primitive_log_safety)',))
     dec = Decider(rep, it)
     st = St()
-    g = Graph(it, st, N, F, alpha)
+    g = Graph(it, st, N, F, alpha, depth, inner)
     st.pc += g.cons
     order = [z3.BitVec(f'call{k}', 64) for k in range(prior + 1)]
     st.pc += [z3.ULT(o, N) for o in order]
@@ -386,7 +452,7 @@ def report(rep, g, m, order, asaf, tag0, what):
     for (t, sa, tg) in calls:
         want.append(sa == 1 or (sa == 0 and (tg == 'safe' or ps[t])))
     got = [res.get(f'e{k}') for k in range(len(calls))]
-    desc = '; '.join(f'T{i}={KIND_NAMES[k]}{[(SAF_NAMES[s], ty, "T%d" % tg) for s, ty, tg in fs]}' for i, (k, fs) in enumerate(gg))
+    desc = '; '.join(f'T{i}={KIND_NAMES[k]}{[(SAF_NAMES[f[0]],) + tuple(f[1:]) for f in fs]}' for i, (k, fs) in enumerate(gg))
     if got != want and res == res2:
         key = 'C08:' + classify(gg, calls)
         rep.violation(key, f'{what}: graph {desc}; endpoints in order take {["T%d" % c[0] for c in calls]} (last arg safety={SAF_NAMES[a]}, tags={[tag] if tag else []}); '
